@@ -14,6 +14,7 @@ GhostInit ==
     [snap  |-> EmptyFn,                     \* tick |-> [e |-> [k |-> val]] for replicated entities
      visAt |-> EmptyFn,                     \* tick |-> [c |-> set of entities visible to c]
      lastSet |-> [c \in Client |-> EmptyFn],\* most recent set_visibility argument per live entity
+     mapsSent |-> [c \in Client |-> {}],    \* [e, p, tick] of every mapping put on the wire
      sentAtRest |-> 0]                      \* replication messages sent by the most recent server frame
 
 WorldValues(srv) == [e \in ReplEnts(srv) |-> [k \in DOMAIN srv.world[e].comps |-> srv.world[e].comps[k].val]]
@@ -26,10 +27,19 @@ GhostSnap(g, st) ==
     [g EXCEPT !.snap = With(@, st.srv.tick, WorldValues(st.srv)),
               !.visAt = With(@, st.srv.tick, [c \in Client |-> VisibleNow(st.srv, c)])]
 
+\* mappings carried by the update messages appended to the channels between two states
+GhostMaps(g, before, after) ==
+    [g EXCEPT !.mapsSent = [c \in Client |->
+        @[c] \cup UNION {{[e |-> mp[1], p |-> mp[2], tick |-> after.net[c].upd[i].tick] : mp \in after.net[c].upd[i].maps}
+                         : i \in (Len(before.net[c].upd) + 1)..Len(after.net[c].upd)}]]
+
 GhostSetVis(g, c, e, v) == [g EXCEPT !.lastSet[c] = With(@, e, v)]
 
 ----------------------------------------------------------------------------
-Held(st, c) == {e \in DOMAIN st.cli[c].ents : st.cli[c].ents[e].alive}
+\* a pre-spawned entity adopted through a mapping whose server entity has not been replicated to the
+\* client yet (no confirmed tick) is not part of the replicated view
+Pending(ent) == ent.pre # None /\ ent.hist < 0
+Held(st, c) == {e \in DOMAIN st.cli[c].ents : st.cli[c].ents[e].alive /\ ~Pending(st.cli[c].ents[e])}
 View(st, c) == [e \in Held(st, c) |-> st.cli[c].ents[e].comps]
 
 Active(st, c) == st.srv.cl[c].conn /\ st.srv.cl[c].auth /\ st.cli[c].status = "Connected"
@@ -73,7 +83,8 @@ C03_Client(st, g, c) ==
           THEN Struct(View(st, c)) = Struct(Restrict(g.snap[T], g.visAt[T][c]))
           ELSE T = 0 /\ Held(st, c) = {}
        /\ \A e \in Held(st, c) : st.cli[c].ents[e].marker
-       /\ \A e \in DOMAIN st.cli[c].ents : st.cli[c].ents[e].alive    \* no dangling map entries
+       /\ \A e \in DOMAIN st.cli[c].ents : st.cli[c].ents[e].alive \/ st.cli[c].ents[e].pre # None   \* no dangling map entries (a pre-spawned entity the client killed itself excepted)
+       /\ st.cli[c].extra = 0                                          \* no replicated entity outside the map
 
 C03(st, g) == \A c \in Client : Active(st, c) => C03_Client(st, g, c)
 
@@ -93,6 +104,17 @@ C08_Query(st, g) ==
     \A c \in Client : (st.srv.cl[c].conn /\ st.srv.cl[c].auth /\ Policy # "all") =>
         \A e \in Ent : st.srv.world[e].alive =>
             IsVisible(st.srv.cl[c].vis, e) = Get(g.lastSet[c], e, Policy = "black")
+
+(* C16: replication for a mapped server entity lands on the pre-spawned client entity, exactly once *)
+C16(st, g) ==
+    \A c \in Client : Active(st, c) =>
+        /\ \A e1, e2 \in DOMAIN st.cli[c].ents :
+              (e1 # e2 /\ st.cli[c].ents[e1].pre # None) => st.cli[c].ents[e1].pre # st.cli[c].ents[e2].pre
+        /\ \A mp \in g.mapsSent[c] :
+              \* the mapping has been applied, the pre-spawned entity is still there and so is the server entity
+              (mp.tick <= st.cli[c].updTick /\ Get(st.cli[c].pre, mp.p, FALSE) /\ mp.e \in DOMAIN st.cli[c].ents)
+                  => st.cli[c].ents[mp.e].pre = mp.p
+        /\ st.cli[c].extra = 0
 
 (* C11 (idle half): with everything acknowledged and nothing changed a tick sends nothing *)
 C11_SilentAtRest(g) == Track \/ g.sentAtRest = 0
